@@ -11,10 +11,9 @@ C08's `step_unsuffixed`/`step_suffixed`) says that this value is `None`, a non-e
 of non-empty strings — never `{}`.  The survey built from these grouped rows therefore satisfies `wf`, and all
 statements of C07 hold for it: they are statements about the cells as typed.
 
-Scope (`_partial`, gap stated at the theorem): question rows of a flat form with the one-level text columns
-`label`/`hint`/`guidance_hint` (any number of languages, any column order, unsuffixed and/or suffixed) and
-choice rows with `label` columns.  Media and bind-message columns (two tokens after the column name:
-`media::image::fr`, `bind::jr:constraintMsg::fr`) are outside C08's `colCells` and not covered here.
+This file: the one-level text columns `label`/`hint`/`guidance_hint` and the flat form used for the
+effective-text statements.  The general statement (media and bind-message columns, nested sections, selects,
+several lists) is `C07Sheets.refs_exist_rows`.
 -/
 namespace Pyxv.C07Rows
 open Pyxv Pyxv.Headers Pyxv.C08 Pyxv.Itext
@@ -143,10 +142,11 @@ theorem mem_flattenL_leaves (pre : Str) (hid : Bool) (qs : List (Str × Kvs)) {f
   induction qs with
   | nil => simp [flattenL]
   | cons q rest ih =>
-    simp only [List.map_cons, flattenL, flatten, List.mem_append, List.mem_cons, List.append_nil]
-    rintro ((h | h) | h)
+    simp only [List.map_cons, flattenL, flatten, List.mem_append, List.mem_cons]
+    rintro ((h | h | h) | h)
     · exact ⟨q, by simp, by rw [h]⟩
-    · simp at h
+    · simp [tagFlats, rowElem] at h
+    · simp [flattenL] at h
     · obtain ⟨q', hq', hd⟩ := ih h
       exact ⟨q', by simp [hq'], hd⟩
 
@@ -154,8 +154,7 @@ theorem mem_flattenL_leaves (pre : Str) (hid : Bool) (qs : List (Str × Kvs)) {f
 theorem wf_sheetSurvey (dl : Str) (qs : List (Str × Kvs)) (ls : List (Str × List Kvs))
     (hq : ∀ q ∈ qs, ∀ c ∈ textCols, Flat (q.2.get c))
     (hl : ∀ l ∈ ls, ∀ o ∈ l.2, Flat (o.get "label".toList)) :
-    wf (sheetSurvey dl qs ls) = true ∧ tagsPlain (sheetSurvey dl qs ls) = true := by
-  constructor
+    wf (sheetSurvey dl qs ls) = true := by
   · simp only [wf, Bool.and_eq_true, List.all_eq_true]
     constructor
     · intro f hf
@@ -173,11 +172,6 @@ theorem wf_sheetSurvey (dl : Str) (qs : List (Str × Kvs)) (ls : List (Str × Li
       obtain ⟨o0, ho0, rfl⟩ := ho
       simp only [optWf, mediaWf, Bool.and_true]
       exact txtOfV_wf (hl l0 hl0 o0 ho0)
-  · simp only [tagsPlain, List.all_eq_true]
-    intro f hf
-    obtain ⟨q, _, hd⟩ := mem_flattenL_leaves _ _ qs (by simpa [flats, sheetSurvey, rootD, rootKids] using hf)
-    rw [hd]
-    simp [rowElem]
 
 /-- all rows of a sheet through `process_row` -/
 def processRows (dk : Str) (hk : List (Str × List Str)) : List (List (Str × Str)) → Except Err (List Kvs)
@@ -203,35 +197,6 @@ theorem processRows_flat {dk : Str} {hk : List (Str × List Str)} {qs : List Str
     · exact hf q hq
     · exact hfs o' ho' q hq
 
-/-- **C07 from the sheets (partial: text columns of a flat form).**  Question rows (`names` gives their `name`
-cells) and the rows of one choice list, as typed: cells are (header, non-empty text) in column order, headers
-resolved by the header key tables `hkS`/`hkC` of `dealias_and_group_headers`.  If every row meets C08's hypotheses
-for its text columns (`RowOk`), then `process_row` accepts all of them and, for the survey built from the grouped
-rows, every `jr:itext` reference and every `itextId` names a text present in every translation, and the whole
-oracle predicate `Itext.holds` is true.  No hypothesis about the built survey remains.
-Gap to the full statement: media and bind-message columns (two tokens after the column name), nested sections,
-selects wired to the list, several lists. -/
-theorem refs_exist_rows_partial (dl : Str) (hkS hkC : List (Str × List Str))
-    (names : List Str) (srows : List (List (Str × Str))) (list : Str) (crows : List (List (Str × Str)))
-    (hs : ∀ r ∈ srows, RowOk dl hkS textCols r) (hc : ∀ r ∈ crows, RowOk dl hkC ["label".toList] r) :
-    ∃ souts couts, processRows dl hkS srows = .ok souts ∧ processRows dl hkC crows = .ok couts ∧
-      let x := sheetSurvey dl (names.zip souts) [(list, couts)]
-      (∀ r ∈ C07.refs x, (out x).translations ≠ [] ∧ ∀ t ∈ (out x).translations, r ∈ t.ids) ∧
-      holds (obsOf x.defaultLanguage (out x)) = true := by
-  obtain ⟨souts, hso, _, hsf⟩ := processRows_flat srows hs
-  obtain ⟨couts, hco, _, hcf⟩ := processRows_flat crows hc
-  refine ⟨souts, couts, hso, hco, ?_⟩
-  have hw := wf_sheetSurvey dl (names.zip souts) [(list, couts)]
-    (by
-      intro q hq c hc'
-      exact hsf q.2 (List.of_mem_zip hq).2 c hc')
-    (by
-      intro l hl o ho
-      simp only [List.mem_singleton] at hl
-      subst hl
-      exact hcf o ho _ (by simp))
-  exact ⟨C07.refs_exist _ hw.1 hw.2, C07.holds_out _ hw.1 hw.2⟩
-
 /-! ### effective text: what a language shows for a translated label is the cell typed for it -/
 
 theorem flattenL_leaves (pre : Str) (hid : Bool) (qs : List (Str × Kvs)) :
@@ -240,9 +205,8 @@ theorem flattenL_leaves (pre : Str) (hid : Bool) (qs : List (Str × Kvs)) :
   induction qs with
   | nil => simp [flattenL]
   | cons q rest ih =>
-    simp only [List.map_cons, flattenL, flatten, ih, List.append_nil, List.cons_append, List.nil_append]
-    congr 2
-    simp [rowElem]
+    simp only [List.map_cons, flattenL, flatten, ih]
+    simp [tagFlats, rowElem, flattenL]
 
 theorem flats_sheet (dl : Str) (qs : List (Str × Kvs)) (ls : List (Str × List Kvs)) :
     flats (sheetSurvey dl qs ls) =
@@ -412,37 +376,6 @@ theorem mem_keys_of_get : ∀ {m : Kvs} {l t : Str}, m.get l = .str t → l ∈ 
     · simp only [Kvs.get, hk, if_false] at h
       simp [Kvs.keys, mem_keys_of_get h]
 
-/-- **C08 ∘ C07 (partial: translated `label` column of a flat form)**: for a question row as typed — `label` cells
-in any number of languages and any column order — if the label column ends up translated (a dict) and C08's
-reading of the cells (`specRead`: the cell suffixed with the language, else for the default language the
-unsuffixed cell) gives `t` for language `l`, then `t` is exactly what the final translation table holds for
-`l` under that question's label id.  Gap to the full effective-text statement: hint/guidance/messages/media and
-choices analogously; nested sections; the untranslated case (inline label, no itext) is C08's alone. -/
-theorem effective_text_rows_partial (dl : Str) (hk : List (Str × List Str)) (qs : List (Str × Kvs))
-    (ls : List (Str × List Kvs)) (hn : (qs.map (·.1)).Nodup) {n : Str} {row : List (Str × Str)} {out m : Kvs}
-    (hrow : RowOk dl hk textCols row) (hout : processRow dl hk row = .ok out) (hq : (n, out) ∈ qs)
-    (hv : out.get "label".toList = .dict m) {l t : Str}
-    (hspec : specRead dl (colCells hk "label".toList row) l = some t) :
-    valueAt (table (sheetSurvey dl qs ls)) l (path ("/data".toList ++ '/' :: n) "label") "long".toList = some t := by
-  obtain ⟨out', hout', hget⟩ := row_grouping dl hk row .nil hrow.headers hrow.noClash
-  have hoo : out' = out := by
-    have : processRow dl hk row = .ok out' := hout'
-    rw [hout] at this; exact (Except.ok.inj this).symm
-  subst hoo
-  have hcol : out'.get "label".toList = colVal dl .none (colCells hk "label".toList row) := by
-    rw [hget, colFold_eq_colVal dl hk _ row _ (hrow.oneLevel _ (by simp [textCols]))]
-    simp [Kvs.get]
-  have hread := column_reading dl (colCells hk "label".toList row)
-    (colCells_texts hk _ row hrow.nonEmpty) (hrow.distinct _ (by simp [textCols])) l
-  rw [← hcol, hv, hspec] at hread
-  have hget_l : m.get l = .str t := by
-    simp only [readLang] at hread
-    split at hread
-    · next t' ht' => cases hread; exact ht'
-    · cases hread
-  rw [effective_label dl qs ls hn hq hv (mem_keys_of_get hget_l), hget_l]
-  rfl
-
 /-! ### `RowOk` as a decidable check (used for the non-vacuity example; evaluable on any concrete row) -/
 
 def noClashFrom (dk : Str) (hk : List (Str × List Str)) (out : Kvs) :
@@ -539,7 +472,7 @@ def srowsEx : List (List (Str × Str)) :=
 def crowsEx : List (List (Str × Str)) :=
   [[("label::fr".toList, "Oui".toList), ("label::en".toList, "Yes".toList)], [("label::en".toList, "No".toList)]]
 
-/-- the hypotheses of `refs_exist_rows_partial` hold for these sheets, and the conclusion is not vacuous:
+/-- these sheets meet `RowOk` (flat special case of `C07Sheets.refs_exist_rows`), and the conclusion is not vacuous:
 5 references (2 labels and 1 hint in the body, 2 itextIds) over 3 translations (fr, default, en) -/
 example :
     (srowsEx.all (rowOkB "default".toList hkSEx textCols) && crowsEx.all (rowOkB "default".toList hkSEx ["label".toList])) = true ∧
@@ -549,7 +482,7 @@ example :
        (C07.refs x).length == 5 && (out x).translations.length == 3
      | _, _ => false) = true := by decide +kernel
 
-/-- non-vacuity of `effective_text_rows_partial`: the first example row (columns `label::fr`, `label`, …) is `RowOk`,
+/-- non-vacuity of `effective_label` (the general statement from the sheets is `C07Text.effective_text_rows`): the first example row (columns `label::fr`, `label`, …) is `RowOk`,
 its label column ends up a dict, the spec reads `Qfr` for `fr` and `Q` for the default language, and that is what
 the final table holds under `/data/a:label` -/
 example :
